@@ -24,7 +24,7 @@ T = {
  'C19': ('id-monitor', 'round-trip / canonical-form monitor on hex conversion, exhaustive 16-bit-lane family plus structured and random values', '5/C19'),
  'C20': ('id-monitor', 'complete enumeration of the finite metadata domain against observed hierarchy sizes', '5/C20'),
 }
-LEVEL_TEXT = {'C01': 'held on every point this run executed: ~90k judged points (quick) / 2.6M (thorough) over a dozen hostile classes x 30 resolutions (including points on the internal branch boundaries of the projection code, located at run time, and a 160k-lookup corner scan selected through inner probes), each judged by an independent spherical point-in-ring oracle with an explicit tolerance band; an infinite input domain cannot be enumerated, so exploration aimed at the thin sets (poles, frame points, antimeridian, cell corners, huge longitudes) is the honest level', 'C02': 'all ids of levels 0..5 (quick) / 0..7 (thorough) are enumerated completely, deeper levels by structured digit patterns and located cells; 7e17 ids cannot be enumerated', 'C03': 'complete manifold certificate (edge pairing, Euler characteristic, area sum) for every level up to 5 (quick) / 7 (thorough), local edge/neighbour certificates for sampled deep cells; above level 7 the certificate is per cell, not global', 'C04': 'converged area with an explicit error envelope for all cells of levels 0..3 (quick) / 0..5 (thorough) and stratified deep samples; three-valued verdict per cell (held / violated / not converged)', 'C05': "complete enumeration of ids for levels 0..6 (quick) / 0..8 (thorough), structured sampling of S at every (face, segment, resolution 0..30), ambient post-conditions inside other API calls; the property's 'S symbolic' quantifier is a bit-vector proof obligation outside this technique and is approximated by sampling aimed at bit positions", 'C06': 'complete levels 0..6 (quick) / 0..8 (thorough) with every (ancestor level, descendant level) pair; deep levels by random triples and range probing around child runs; out-of-order requests alone and directly after related valid requests', 'C07': 'random and adversarial (beam-search) descent paths plus the exact nesting clause for all 12 faces x 5 segments; all 4^12 paths per cell cannot be enumerated, the beam search is the worst-case finder', 'C08': 'exhaustive antichains of a seed-chosen bounded sub-hierarchy spanning every aperture (868k quick / 18.5M thorough), all orders of small cases, random large sets, each compared with a set model', 'C09': 'same exhaustive family as C08 restricted to antichains, compared with the canonical minimal antichain of the set model, plus order/duplication/idempotence checks', 'C10': 'random lists over the whole resolution range with bounded expansion, block-by-block comparison with the hierarchy model and argument snapshots', 'C11': 'distance bounds observed on ~100k (quick) / 1.5M+ (thorough) hostile points and on all cells of low levels plus structured deep cells, distances from an independent authalic oracle', 'C12': 'all cells of levels 0..3 (quick) / 0..5 (thorough) x 24 option combinations, plus antimeridian / polar / frame / pattern cells at every deeper level', 'C13': 'both round-trip directions on 288k (quick) / 5M (thorough) vectors and face-plane points sampled inside the stated domain (barycentric, log-small weights), singleton and fresh instances', 'C14': 'converged area ratio with an explicit error envelope for thousands of planar polygons aimed at seams, edges, centre and vertices on all faces', 'C15': '1-D domain swept on a dense grid (1e5 quick / 2e6 thorough) plus log-spaced approaches, against the exact closed form that is itself re-validated against 50-digit arithmetic each run', 'C16': 'systematic single-preemption schedules (context bound 2) at line and bytecode granularity over a catalogue covering all public functions, from warm state, from cold state (all shared containers rewound) and with bounded caches filled exactly to capacity; sampled context-bound-3 schedules with two real threads and a deterministic hand-over; randomised real-thread runs; schedules with more switches are only reached stochastically', 'C17': 'random histories with cold / partially warm / warm caches, every compared call re-executed alone in a fresh interpreter and compared bit for bit; argument snapshots and scrambling of returned lists', 'C18': 'all indices of levels 1..6 (quick) / 1..8 (thorough) in all six orientations with a planar manifold certificate, digit-pattern-directed indices up to level 28', 'C19': 'the 16-bit-lane family is enumerated completely (524,288 values), the rest of the 2^64 domain is sampled with structured and random values', 'C20': 'the metadata domain (31 resolutions, 496 resolution pairs) is finite and enumerated completely against observed hierarchy sizes up to level 6 (quick) / 8 (thorough); every metadata call also with a second one completed inside each of its LINE / INSTRUCTION events from the just-imported state'}
+LEVEL_TEXT = {'C01': 'held on every point this run executed: ~90k judged points (quick) / 2.6M (thorough) over a dozen hostile classes x 30 resolutions (including points on the internal branch boundaries of the projection code, located at run time, and a 160k-lookup corner scan selected through inner probes), each judged by an independent spherical point-in-ring oracle with an explicit tolerance band; an infinite input domain cannot be enumerated, so exploration aimed at the thin sets (poles, frame points, antimeridian, cell corners, huge longitudes) is the honest level', 'C02': 'all ids of levels 0..5 (quick) / 0..7 (thorough) are enumerated completely, deeper levels by structured digit patterns, same-index ladders over consecutive resolutions and located cells; 7e17 ids cannot be enumerated', 'C03': 'complete manifold certificate (edge pairing, Euler characteristic, area sum) for every level up to 5 (quick) / 7 (thorough), local edge/neighbour certificates for sampled deep cells; above level 7 the certificate is per cell, not global', 'C04': 'converged area with an explicit error envelope for all cells of levels 0..3 (quick) / 0..5 (thorough) and stratified deep samples; three-valued verdict per cell (held / violated / not converged)', 'C05': "complete enumeration of ids for levels 0..6 (quick) / 0..8 (thorough), structured sampling of S at every (face, segment, resolution 0..30), ambient post-conditions inside other API calls; the property's 'S symbolic' quantifier is a bit-vector proof obligation outside this technique and is approximated by sampling aimed at bit positions", 'C06': 'complete levels 0..6 (quick) / 0..8 (thorough) with every (ancestor level, descendant level) pair; deep levels by random triples and range probing around child runs; out-of-order requests alone and directly after related valid requests', 'C07': 'random and adversarial (beam-search) descent paths plus the exact nesting clause for all 12 faces x 5 segments; all 4^12 paths per cell cannot be enumerated, the beam search is the worst-case finder', 'C08': 'exhaustive antichains of a seed-chosen bounded sub-hierarchy spanning every aperture (868k quick / 18.5M thorough), all orders of small cases, random large sets, each compared with a set model', 'C09': 'same exhaustive family as C08 restricted to antichains, compared with the canonical minimal antichain of the set model, plus order/duplication/idempotence checks', 'C10': 'random lists over the whole resolution range with bounded expansion, block-by-block comparison with the hierarchy model and argument snapshots; children lists with local edits to order and multiplicity; returned lists edited and the call repeated', 'C11': 'distance bounds observed on ~100k (quick) / 1.5M+ (thorough) hostile points and on all cells of low levels plus structured deep cells, distances from an independent authalic oracle', 'C12': 'all cells of levels 0..3 (quick) / 0..5 (thorough) x 24 option combinations, plus antimeridian / polar / frame / pattern cells at every deeper level; a quarter of the returned rings edited in place and the call repeated', 'C13': 'both round-trip directions on 288k (quick) / 5M (thorough) vectors and face-plane points sampled inside the stated domain (barycentric, log-small weights), singleton and fresh instances', 'C14': 'converged area ratio with an explicit error envelope for thousands of planar polygons aimed at seams, edges, centre and vertices on all faces', 'C15': '1-D domain swept on a dense grid (1e5 quick / 2e6 thorough) plus log-spaced approaches, against the exact closed form that is itself re-validated against 50-digit arithmetic each run; a second conversion completed inside every LINE event of a conversion on the shared converter, compared bit for bit', 'C16': 'systematic single-preemption schedules (context bound 2) at line and bytecode granularity over a catalogue covering all public functions, from warm state, from cold state (all shared containers rewound) and with bounded caches filled exactly to capacity; sampled context-bound-3 schedules with two real threads and a deterministic hand-over; randomised real-thread runs; schedules with more switches are only reached stochastically', 'C17': 'random histories with cold / partially warm / warm caches, every compared call re-executed alone in a fresh interpreter and compared bit for bit; argument snapshots and scrambling of returned lists', 'C18': 'all indices of levels 1..6 (quick) / 1..8 (thorough) in all six orientations with a planar manifold certificate, digit-pattern-directed indices up to level 28', 'C19': 'the 16-bit-lane family is enumerated completely (524,288 values), the rest of the 2^64 domain is sampled with structured and random values', 'C20': 'the metadata domain (31 resolutions, 496 resolution pairs) is finite and enumerated completely against observed hierarchy sizes up to level 6 (quick) / 8 (thorough); every metadata call also with a second one completed inside each of its LINE / INSTRUCTION events from the just-imported state'}
 base = json.load(open('/root/.vp/BASELINE.json'))['cmd'].replace('--junitxml=<file>', '').strip()
 checks, na = [], []
 for pid, (engine, tech, ref) in T.items():
